@@ -28,6 +28,15 @@ def richardson(base_cls, n):
     return I.generate_richardson_integrator(base_cls, richardson_iter=n)
 
 
+def resolve_cls(name, M=None):
+    """'RK4Solver' -> class; 'R3:RK4Solver' -> Richardson wrapper (3 levels) of it."""
+    M = M or methods()
+    if name.startswith("R") and ":" in name:
+        lv, base = name.split(":", 1)
+        return richardson(M[base]["cls"], int(lv[1:]))
+    return M[name]["cls"]
+
+
 def passthrough_adaptation(intg):
     """The library's public `adaptation_fn` extension point: never shrink/reject on the error estimate."""
     if getattr(intg, "solver_dict", None) is None:
